@@ -37,6 +37,8 @@ pub struct SessRec {
     /// expiry (unix seconds) for "exp", else -1
     pub exp: i64,
     pub cred_id: Uuid,
+    /// time of revocation (seconds of the revoking change id) for "rev", else -1
+    pub rev_at: i64,
     pub issued_at: i64,
     /// "ro" | "rw" | "pc" | "sync"
     pub scope: &'static str,
@@ -47,15 +49,16 @@ pub fn uat_sessions(e: &Entry<EntrySealed, EntryCommitted>) -> Vec<SessRec> {
         .map(|m| {
             m.iter()
                 .map(|(id, s)| {
-                    let (state, exp) = match &s.state {
-                        SessionState::ExpiresAt(o) => ("exp", secs(o)),
-                        SessionState::NeverExpires => ("never", -1),
-                        SessionState::RevokedAt(_) => ("rev", -1),
+                    let (state, exp, rev_at) = match &s.state {
+                        SessionState::ExpiresAt(o) => ("exp", secs(o), -1),
+                        SessionState::NeverExpires => ("never", -1, -1),
+                        SessionState::RevokedAt(c) => ("rev", -1, c.ts.as_secs() as i64),
                     };
                     SessRec {
                         id: *id,
                         state,
                         exp,
+                        rev_at,
                         cred_id: s.cred_id,
                         issued_at: secs(&s.issued_at),
                         scope: match s.scope {
